@@ -49,7 +49,8 @@ STUB = ['event loop + clock', 'TCP sockets/listener', 'DNS', 'executor',
 PROBES = ['fault_rst', 'fault_eof', 'fault_stall', 'cut_before_auth',
           'cut_with_channels', 'cancelled_task',
           'op_error', 'sftp_started', 'teardown_server_side',
-          'tunnel_opened', 'tunnel_by_name', 'cut_inner_leg']
+          'tunnel_opened', 'tunnel_by_name', 'cut_inner_leg',
+          'connect_cancelled']
 
 _sandbox = [None]
 
@@ -168,7 +169,10 @@ def gen_plan(rng):
             'after': rng.below(12),
         })
     elif fk == 'cancel':
-        fault.update({'chan': rng.below(max(1, nch)),
+        # chan -1: the caller of connect() itself is cancelled (what a
+        # connect timeout does), at any point of handshake and login
+        fault.update({'chan': rng.weighted([(rng.below(max(1, nch)), 3),
+                                            (-1, 1)]),
                       'after': rng.choice([rng.below(12), rng.below(60)])})
 
     return {
@@ -627,10 +631,23 @@ class Run:
                 '127.0.0.1', 22, client_factory=client_factory,
                 **client_opts(**ka))
 
+        ctask = sim.track('connect', do_connect())
+
+        if f['kind'] == 'cancel' and f['chan'] == -1:
+            self.drivers[-1] = ctask
+            sim.track('cancel-fault', self.cancel_fault(f))
+
         try:
-            self.conn = await sim.track('connect', do_connect())
+            self.conn = await ctask
         except OK_ERRORS as exc:
             world.event('main', 'connect-failed', type(exc).__name__)
+            return
+        except asyncio.CancelledError:
+            if not ctask.cancelled():
+                raise
+
+            sim.probes['connect_cancelled'] += 1
+            world.event('main', 'connect-cancelled')
             return
 
         if plan.get('remote_fwd'):
@@ -652,7 +669,7 @@ class Run:
 
         if f['kind'] == 'api':
             sim.track('api-fault', self.api_fault(f))
-        elif f['kind'] == 'cancel':
+        elif f['kind'] == 'cancel' and f['chan'] != -1:
             sim.track('cancel-fault', self.cancel_fault(f))
 
         await world.gate('teardown')
